@@ -83,13 +83,15 @@ def ensure_vcopy():
 
 
 def checks_for(meta, props):
+    if props == "ALL":
+        return [c["property_id"] for c in json.load(open("/verif/MANIFEST.json"))["checks"]]
     if props:
         return props.split(",")
     return [meta["property"]]
 
 
 def detect(d, tier, props, in_place):
-    meta = json.load(open(f"{d}/meta.json"))
+    meta = json.load(open(f"{d}/meta.json")) if os.path.exists(f"{d}/meta.json") else {}
     ids = checks_for(meta, props)
     out_all = {"dir": d, "tier": tier, "mode": "in-place" if in_place else "scratch", "results": {}}
     patch = os.path.abspath(f"{d}/patch.diff")
